@@ -590,8 +590,12 @@ func execSf(f []string) {
 }
 
 // ---------------------------------------------------------------- class cw: commit wait
-func execCw(f []string) { // bound timeout_ns script
-	bound, to := pu(f[1]), pi(f[2])
+func execCw(f []string) { // registrations(comma list) timeout_ns script
+	var regs []uint64
+	for _, x := range strings.Split(f[1], ",") {
+		regs = append(regs, pu(x))
+	}
+	to := pi(f[2])
 	var script []string
 	if f[3] != "-" {
 		script = strings.Split(f[3], ",")
@@ -609,7 +613,7 @@ func execCw(f []string) { // bound timeout_ns script
 		}
 		return pu(s), nil
 	}
-	ts, err, lag, calls := transaction.VerifCommitWait(fn, bound, time.Duration(to))
+	ts, err, lag, calls, eff := transaction.VerifCommitWait(fn, regs, time.Duration(to))
 	r := "ok " + u(ts)
 	if err != nil {
 		r = "errother"
@@ -617,7 +621,7 @@ func execCw(f []string) { // bound timeout_ns script
 			r = "errlag"
 		}
 	}
-	emit("cw", f[1], f[2], f[3], "=>", r, strconv.Itoa(calls))
+	emit("cw", f[1], f[2], f[3], "=>", r, strconv.Itoa(calls), u(eff))
 	_ = tikverr.ErrCommitTSLag
 }
 
@@ -1364,6 +1368,7 @@ func execRf(f []string) {
 		}(sc)
 	}
 	failName, failDetail := "", ""
+	staysDetail := "" // an entry that disappeared (reported, the run goes on to look for a decrease)
 	cached := map[string]uint64{}
 	done := 0
 	for ; done < rounds && failName == ""; done++ {
@@ -1375,6 +1380,19 @@ func execRf(f []string) {
 		held := pdc.pend[0].r
 		pdc.mu.Unlock()
 		heldTS := oracle.ComposeTS(held.p, held.l)
+		// requests whose answers PD issues now but which reach their callers only after the refresher's outcome
+		type earlyFut struct {
+			sc  string
+			fut oracle.Future
+		}
+		var early []earlyFut
+		var earlyDesc []string
+		for _, sc := range scs {
+			if r.Intn(2) == 0 {
+				early = append(early, earlyFut{sc, o.GetTimestampAsync(ctx, &oracle.Option{TxnScope: sc})})
+				earlyDesc = append(earlyDesc, sc)
+			}
+		}
 		// foreground callers cache later timestamps (a random subset of scopes, at least one)
 		var fg []string
 		for i, sc := range scs {
@@ -1393,16 +1411,26 @@ func execRf(f []string) {
 				before[sc] = lr
 			}
 		}
-		pdc.release(false) // PD's (older) answer reaches the refresher now
-		if !waitPending() { // its next request: the previous publish step is over
+		fault := done%3 == 2 || r.Intn(4) == 0 // PD fails this refresher request
+		pdc.release(fault)                     // PD's (older) answer, or a failure, reaches the refresher now
+		if !waitPending() {                    // its next request: the previous publish step is over
 			failName, failDetail = "rf_refresher_runs", "refresher did not continue within 5s"
 			break
 		}
+		// answers that PD issued earlier (before the foreground's) arrive only now
+		for _, e := range early {
+			if _, err := e.fut.Wait(); err != nil {
+				panic(err)
+			}
+		}
 		for _, sc := range scs {
 			lr, err := o.GetLowResolutionTimestamp(ctx, &oracle.Option{TxnScope: sc})
+			if _, had := before[sc]; had && err != nil && staysDetail == "" {
+				staysDetail = fmt.Sprintf("round %d: refresher request allocated %x answered with fault=%v; scope %s had cached %x, now: %v", done, heldTS, fault, sc, before[sc], err)
+			}
 			if err == nil && lr < before[sc] {
 				failName = "rf_lowres_monotone"
-				failDetail = fmt.Sprintf("round %d: refresher request allocated %x was held back; foreground cached %v; cached value of scope %s before the refresher's answer %x, after it %x", done, heldTS, fg, sc, before[sc], lr)
+				failDetail = fmt.Sprintf("round %d: refresher request allocated %x was held back; answers issued next are held for scopes %v; foreground cached %v; refresher answered with fault=%v, then the held answers arrived; cached value of scope %s before %x, after %x", done, heldTS, earlyDesc, fg, fault, sc, before[sc], lr)
 			}
 		}
 		if b, _ := bad.Load().(string); b != "" && failName == "" {
@@ -1417,12 +1445,15 @@ func execRf(f []string) {
 	o.Close()
 	for pdc.release(false) {
 	}
-	for _, name := range []string{"rf_lowres_monotone", "rf_refresher_runs"} {
+	for _, name := range []string{"rf_lowres_monotone", "rf_lowres_stays", "rf_refresher_runs"} {
 		d := ""
 		if name == failName {
 			d = failDetail
 		}
-		pline(name, name != failName, f[1], d)
+		if name == "rf_lowres_stays" {
+			d = staysDetail
+		}
+		pline(name, name != failName && d == "", f[1], d)
 	}
 	emit("rf", "counts", f[1], "=>", fmt.Sprintf("rounds=%d scopes=%d reads=%d", done, nsc, nreads.Load()))
 }
